@@ -65,7 +65,7 @@ fn step<const P: usize, const B: usize>(use_add: bool) {
     assert!(improved == (P == 0 || head.key != pre[0].key), "post_reports_improvement");
     kani::cover!(n == max_size);
     kani::cover!(improved);
-    kani::cover!(!improved);
+    kani::cover!(P == 0 || !improved);   // (from an empty population every addition is an improvement)
 }
 
 macro_rules! steps {
